@@ -12,12 +12,20 @@ import (
 // engineLex runs the real lexer and renders tokens canonically: tp:hexdata:pos
 func engineLex(q string) string {
 	out, _ := safely(func() string {
-		toks := kvql.NewLexer(q).Split()
-		parts := make([]string, len(toks))
-		for i, t := range toks {
-			parts[i] = fmt.Sprintf("%d:%s:%d", t.Tp, hxs(t.Data), t.Pos)
+		render := func(toks []*kvql.Token) string {
+			parts := make([]string, len(toks))
+			for i, t := range toks {
+				parts[i] = fmt.Sprintf("%d:%s:%d", t.Tp, hxs(t.Data), t.Pos)
+			}
+			return strings.Join(parts, " ")
 		}
-		return strings.Join(parts, " ")
+		l := kvql.NewLexer(q)
+		first := render(l.Split())
+		// the token list is a function of the text: splitting again with the same Lexer gives the same list
+		if again := render(l.Split()); again != first {
+			return first + " !second-Split-differs: " + again
+		}
+		return first
 	})
 	return out
 }
@@ -33,6 +41,8 @@ var lexPool = []string{
 	// valid multi-byte UTF-8: inside literals (any text) and as words made of lower-case or caseless letters
 	// (Go's ToLower is the identity on them; none of them is a Unicode space), incl. continuation bytes 0x85 / 0xA0
 	"'café'", "\"键\"", "`naïve ü`", "'😅 ok'", "'100% %s %%'", "voilà", "århus", "ąbc", "x丅y", "ok😅", "é", "键值",
+	// a byte order mark (U+FEFF: caseless, not a space): part of a word like any other letter
+	"\ufeff", "\ufeffselect", "\ufeff ",
 }
 
 func lexCheckOne(col *Collector, d *Driver, q string, seed, idx uint64, count bool) error {
@@ -261,7 +271,7 @@ func asciiOutsideLiterals(q string) string {
 		// (and trims) like the ASCII-only model on them, in word position too
 		safe := true
 		for _, r := range q {
-			if r >= 0x80 && !strings.ContainsRune("àåąéïü丅键值😅", r) {
+			if r >= 0x80 && !strings.ContainsRune("àåąéïü丅键值😅\ufeff", r) {
 				safe = false
 				break
 			}
